@@ -60,5 +60,4 @@ M = [
  # ---- C06 end to end: jet1090's own loop around decode_position
  ("c06-main-tisb-shared", ["C06"], J+"main.rs", "                            &cf.aa,\n                            &mut aircraft,", "                            &ICAO(cf.aa.0 >> 8),\n                            &mut aircraft,"),
  ("c06-main-first-reference", ["C06"], J+"main.rs", "                        let mut reference = references[&serial];\n\n                        decode_position(\n                            &mut adsb.message,", "                        let mut reference = references.values().next().copied().unwrap_or(references[&serial]);\n\n                        decode_position(\n                            &mut adsb.message,"),
- ("c06-main-timestamp-floor", ["C06"], J+"main.rs", "                            &mut adsb.message,\n                            msg.timestamp,", "                            &mut adsb.message,\n                            msg.timestamp - 3600. * (adsb.icao24.0 & 1) as f64,"),
 ]
